@@ -80,8 +80,32 @@ func NewEventSerializer(parentLogger logger.Logger, schema base.LogSchema, confi
 
 // SerializeRecord serializes log records into streams
 func (packer *eventSerializer) SerializeRecord(record *base.LogRecord) base.LogStream {
+	// there is no length limit on header fields and fields added by transforms: make sure the buffer can hold this record
+	if maxLength := packer.computeMaxLength(record); maxLength > len(packer.buffer) {
+		packer.buffer = make([]byte, maxLength)
+	}
 	length := packer.encodeRecord(record, packer.buffer)
 	return packer.buffer[:length]
+}
+
+// computeMaxLength returns the maximum possible length of the given log record after serialization
+func (packer *eventSerializer) computeMaxLength(record *base.LogRecord) int {
+	// array header, timestamp, map headers, "environment" key and one extra byte: the buffer must never be completely filled
+	maxLength := 32
+	for _, key := range packer.serializedFieldKeys {
+		maxLength += len(key) + 5 // key and the header of value
+	}
+	for _, key := range packer.serializedEnvFieldKeys {
+		maxLength += len(key) + 5
+	}
+	for i, value := range record.Fields[0:len(packer.fieldMasks)] {
+		if rewriter := packer.fieldRewriters[i]; rewriter != nil && len(value) > 0 {
+			maxLength += rewriter.MaxFieldLength(value, record)
+		} else {
+			maxLength += len(value)
+		}
+	}
+	return maxLength
 }
 
 // encodeRecord encodes the given log record to buffer and returns the end position.
